@@ -644,7 +644,7 @@ class NPShim(types.ModuleType):
     def zeros(self, shape, dtype=float, **k): return self._mk(np.zeros(shape, dtype=self._dtf(dtype)))
     def ones(self, shape, dtype=float, **k): return self._mk(np.ones(shape, dtype=self._dtf(dtype)))
     def empty(self, shape, dtype=float, **k): return self._mk(np.zeros(shape, dtype=self._dtf(dtype)))
-    def eye(self, n, M=None, k=0, dtype=float, **kw): return self._mk(np.eye(n, M, k, dtype=dtype))
+    def eye(self, n, M=None, k=0, dtype=float, **kw): return self._mk(np.eye(n, M, k, dtype=self._dtf(dtype)))
     def arange(self, *a, **k): return np.arange(*a, **k)
     def diag(self, v, k=0):
         if isinstance(v, SymArray):
@@ -652,6 +652,7 @@ class NPShim(types.ModuleType):
         return self._mk(np.diag(np.asarray(v), k=k))
 
     def array(self, x, dtype=None, **k):
+        dtype = self._dtf(dtype)
         if isinstance(x, SymArray):
             return SymArray(x.a.copy(), dtype or x._dt, x.dom)
         if isinstance(x, np.ndarray):
